@@ -143,7 +143,7 @@ def flow_scenarios(ctx):
                               {"kind": "finalize", "nth": 0, "answer": {"status": 503, "ctype": "application/problem+json",
                                "body": {"type": mockca.ERR + "serverInternal"}, "nonce": "none"}}] if i % 3 != 2 else []})
     pairs = [("ecdsa_p256", "ecdsa_p384"), ("ecdsa_p384", "rsa2048"), ("rsa2048", "ed25519"), ("ed25519", "ecdsa_p521"),
-             ("ecdsa_p521", "ed448"), ("ed448", "ecdsa_p256")] if ctx.quick() else [(a, b) for a in KT for b in KT]
+             ("ecdsa_p521", "ed448"), ("ed448", "ecdsa_p256")] if ctx.quick() else [(a, b) for a in KT for b in KT if a != b]
     for a, b in pairs:
         scs.append({"name": "rollover-%s-%s" % (a, b),
                     "steps": [{"key_type": a}, {"key_type": b, "contacts": ["b@example.org", "a@example.org"] if a < b else None}],
